@@ -54,7 +54,7 @@ class C07(Check):
 
     def budget(self, tier):
         q = tier == 'quick'
-        return {'random_files': 400 if q else 40000, 'dense64': 40 if q else 3000, 'tiny': 60 if q else 5000}
+        return {'random_files': 400 if q else 100000, 'dense64': 40 if q else 8000, 'tiny': 60 if q else 12000}
 
     # ------------------------------------------------------------------ gen
     def gen(self, cls, rng, i):
